@@ -583,6 +583,11 @@ func (m *Machine) MapLookup(mp *Map, k Value) (Value, bool) {
 			return mp.Vals[i], true
 		}
 	}
+	for i, kk := range mp.Keys {
+		if m.knownEqualKey(kk, k) {
+			return mp.Vals[i], true
+		}
+	}
 	// a symbolic key may coincide with another key: that is a fork
 	if s, ok := k.(Str); ok && s.HasHole() {
 		for i, kk := range mp.Keys {
@@ -606,6 +611,38 @@ func (m *Machine) MapLookup(mp *Map, k Value) (Value, bool) {
 	return nil, false
 }
 
+// knownEqualKey: the world has already decided that two symbolic string keys are the same string.
+func (m *Machine) knownEqualKey(a, b Value) bool {
+	sa, ok1 := a.(Str)
+	sb, ok2 := b.(Str)
+	if !ok1 || !ok2 || (!sa.HasHole() && !sb.HasHole()) {
+		return false
+	}
+	// strip a common literal suffix/prefix structure: same shape with holes pairwise known-equal
+	if len(sa.P) != len(sb.P) {
+		return false
+	}
+	for i := range sa.P {
+		pa, pb := sa.P[i], sb.P[i]
+		if (pa.Hole == nil) != (pb.Hole == nil) {
+			return false
+		}
+		if pa.Hole == nil {
+			if pa.Lit != pb.Lit {
+				return false
+			}
+			continue
+		}
+		if strings.Join(pa.Hole.Tr, ",") != strings.Join(pb.Hole.Tr, ",") {
+			return false
+		}
+		if pa.Hole.A.ID != pb.Hole.A.ID && m.eqFind(pa.Hole.A.ID) != m.eqFind(pb.Hole.A.ID) {
+			return false
+		}
+	}
+	return true
+}
+
 func (m *Machine) MapUpdate(mp *Map, k, v Value) {
 	if mp.Nil {
 		panic(m.fail("assignment to entry in nil map"))
@@ -613,6 +650,12 @@ func (m *Machine) MapUpdate(mp *Map, k, v Value) {
 	ks := mapKeyString(k)
 	for i, kk := range mp.Keys {
 		if mapKeyString(kk) == ks {
+			mp.Vals[i] = v
+			return
+		}
+	}
+	for i, kk := range mp.Keys {
+		if m.knownEqualKey(kk, k) {
 			mp.Vals[i] = v
 			return
 		}
